@@ -297,17 +297,20 @@ def make_ops(ctx, kinds, ts_g, d, flavor, fresh_values=None):
 
 def build(ctx, kinds, flavor, ts_a, ts_g, d, emitter='null', parallel=None,
           engine_cls=LoggedEngine, extra_processes=None, extra_topology=None,
-          initial_state=None, actor_last=False, issuer='process'):
+          initial_state=None, actor_last=False, issuer='process',
+          extra_steps=None, extra_flow=None, first_flavor=None,
+          via_composite=False):
     LOG.clear()
     CTX.clear()
     CREATED.clear()
-    a = agent(ts_g, d, flavor)
+    a = agent(ts_g, d, first_flavor or flavor)
     if parallel:
         parallel(a)
     ops = make_ops(ctx, kinds, ts_g, d, flavor)
     if issuer != 'process':
         return _build_step_issuer(a, ops, issuer, emitter, engine_cls,
-                                  initial_state)
+                                  initial_state, extra_processes,
+                                  extra_topology, extra_steps, extra_flow)
     actor = Actor({'ts': ts_a, 'ops': ops})
     if actor_last:
         # listed after the agents: in a batch the agents' updates are applied
@@ -325,16 +328,27 @@ def build(ctx, kinds, flavor, ts_a, ts_g, d, emitter='null', parallel=None,
     init = {'loc2': {'b1': {'s': {'x': 5}}}}
     if initial_state:
         init.update(initial_state)
-    e = engine_cls(processes=processes, steps=steps, flow=flow,
-                   topology=topology, initial_state=init, display_info=False,
-                   emitter=emitter)
+    if via_composite:
+        # the engine is built from a Composite object, which it keeps in sync
+        from vivarium.core.composer import Composite
+        comp = Composite({'processes': processes, 'steps': steps,
+                          'flow': flow, 'topology': topology, 'state': init})
+        CTX['composite'] = comp
+        e = engine_cls(composite=comp, display_info=False, emitter=emitter)
+    else:
+        e = engine_cls(processes=processes, steps=steps, flow=flow,
+                       topology=topology, initial_state=init,
+                       display_info=False, emitter=emitter)
     CTX['engine'] = e
     CTX['actor'] = actor
     CTX['first_agent'] = a
     return e
 
 
-def _build_step_issuer(a, ops, issuer, emitter, engine_cls, initial_state):
+def _build_step_issuer(a, ops, issuer, emitter, engine_cls, initial_state,
+                       extra_processes=None, extra_topology=None,
+                       extra_steps=None, extra_flow=None, first_flavor=None,
+          via_composite=False):
     """The structural updates are issued by a step during a step phase: a
     legacy deriver (listed under processes, runs before all flow steps) or a
     flow step without dependencies (first layer)."""
@@ -349,6 +363,13 @@ def _build_step_issuer(a, ops, issuer, emitter, engine_cls, initial_state):
     else:
         steps = dict(steps, actor=actor)
         flow = dict(flow, actor=[])
+    if extra_processes:
+        processes.update(extra_processes)
+    if extra_topology:
+        topology.update(extra_topology)
+    if extra_steps:
+        steps = dict(steps, **extra_steps)
+        flow = dict(flow, **extra_flow)
     init = {'loc2': {'b1': {'s': {'x': 5}}}}
     if initial_state:
         init.update(initial_state)
